@@ -12,7 +12,7 @@ from qvm.memlayout import (
 )
 from .codegen import BaseCodeGen, BaseCode
 from .program import Label, LineNo, Program
-from .exceptions import InternalError
+from .exceptions import InternalError, CompileError, ErrorCode as EC
 from .evalctx import Routine
 from .utils import Empty
 from . import stmt, expr
@@ -858,11 +858,13 @@ def gen_lvalue_ref(node, code, codegen):
 
 def gen_code_for_conv(to_type, node, code, codegen):
     assert isinstance(to_type, expr.Type)
-    assert not node.type.is_array
-    assert not node.type.is_user_defined
+    if node.type.is_array or node.type.is_user_defined:
+        raise CompileError(EC.TYPE_MISMATCH, node=node)
     assert not to_type.is_array
     assert not to_type.is_user_defined
     if node.type != to_type:
+        if not node.type.is_numeric or not to_type.is_numeric:
+            raise CompileError(EC.TYPE_MISMATCH, node=node)
         from_char = node.type.type_char
         to_char = to_type.type_char
         code.add((f'conv{from_char}{to_char}',))
@@ -1360,22 +1362,19 @@ def gen_cls(node, code, codegen):
 def gen_color(node, code, codegen):
     if node.foreground is not None:
         codegen.gen_code_for_node(node.foreground, code)
-        if node.foreground.type != expr.Type.INTEGER:
-            code.add((f'conv{node.foreground.type.type_char}%',))
+        gen_code_for_conv(expr.Type.INTEGER, node.foreground, code, codegen)
     else:
         code.add(('push%', -1))
 
     if node.background is not None:
         codegen.gen_code_for_node(node.background, code)
-        if node.background.type != expr.Type.INTEGER:
-            code.add((f'conv{node.background.type.type_char}%',))
+        gen_code_for_conv(expr.Type.INTEGER, node.background, code, codegen)
     else:
         code.add(('push%', -1))
 
     if node.border is not None:
         codegen.gen_code_for_node(node.border, code)
-        if node.border.type != expr.Type.INTEGER:
-            code.add((f'conv{node.border.type.type_char}%',))
+        gen_code_for_conv(expr.Type.INTEGER, node.border, code, codegen)
     else:
         code.add(('push%', -1))
 
